@@ -3,7 +3,8 @@
   independent of how the backend is written.
 
   An observation of one key (tokens stand for concrete bytes; the harness maps them):
-    get    the GetObject/HeadObject/GetObjectTagging answer (`404` or data,etag,content-type,metadata,version id,tags)
+    get    the GetObject/HeadObject/GetObjectTagging answer (`404` or data,etag,content-type,metadata,version id,tags
+           [,legal hold — object-lock buckets])
     list   the key's ListObjectsV2 entry (`-` = not listed)
     ver    the key's ListObjectVersions entries
     up     the key's multipart uploads (ListMultipartUploads) with their parts (ListParts)
@@ -35,13 +36,14 @@ def keySide (a : Obs) : String × String × String := (a.get, a.list, a.ver)
 
 /-- Field-by-field provenance of a GetObject answer that is neither the old nor the new one:
     `o` = the old value, `n` = the new value, `=` = old and new agree and so does the answer, `?` = neither.
-    Fields: data, etag, content-type, metadata, version id, tags.  (Names the defect class in signatures.) -/
+    Fields: data, etag, content-type, metadata, version id, tags — and, in an object-lock bucket, the legal hold.
+    (Names the defect class in signatures.) -/
 def provenance (old new o : String) : String :=
   let fo := old.splitOn ","
   let fn := new.splitOn ","
   let fx := o.splitOn ","
-  if fx.length != 6 then o else
-  String.join ((List.range 6).map (fun i =>
+  if fx.length != 6 && fx.length != 7 then o else
+  String.join ((List.range fx.length).map (fun i =>
     let x := fx.getD i ""
     let a := fo.getD i "<absent>"
     let b := fn.getD i "<absent>"
